@@ -752,12 +752,34 @@ def validate(traces, wd, tag, max_events=6000):
 
 
 # ---------------------------------------------------------------------------------- run
+def _c09_call(k, ko, ref, refobj, **kw):
+    n = len(ko)
+    c = {"k": k, "ko": ko, "ref": ref, "refgiven": True, "refobj": refobj, "num": 1, "den": 1, "delta": 0, "eps": 0,
+         "useobj": False, "objc": kw.pop("c"), "sub": [1] * n}
+    c.update(kw)
+    return c
+
+
+# pinned, seed-independent witnesses of the open findings (driven first on every run, so the
+# KNOWN-FINDING line does not depend on what the drawn families happen to contain)
+_W50 = {"rxns": ["r1", "r2", "r3"], "mets": ["A"], "S": [[1], [-1], [-1]], "lb": [1, 0, 0], "ub": [2, 2, 2],
+        "c": [0, 1, 0], "dir": "min"}
+PINNED = {
+    "C09": [{"M": _W50, "calls": [_c09_call("room", [0, 0, 1], [1, 0, 1], 0, c=[0, 1, 0]),
+                                  _c09_call("linroom", [0, 0, 1], [1, 0, 1], 0, c=[0, 1, 0]),
+                                  _c09_call("moma", [0, 0, 1], [1, 0, 1], 0, c=[0, 1, 0])]}],
+}
+
+
 def _items_for(prop, tier, insts_by_family):
     """(tid, instance, palette): the default palette on everything, the exact solver / awkward ids on
     every k-th instance."""
     T = TIERS[prop][tier]
     items = []
     tid = 0
+    for ii, inst in enumerate(PINNED.get(prop, [])):
+        tid += 1
+        items.append({"tid": tid, "inst": inst, "pal": PALETTES[0], "fam": -1, "idx": ii})
     for fi, insts in enumerate(insts_by_family):
         for ii, inst in enumerate(insts):
             tid += 1
@@ -809,7 +831,7 @@ def run(prop, tier, replay=None):
     t2 = time.time()
     items = _items_for(prop, tier, fams)
     nproc = max(2, min(C.NCPU - 2, 14))
-    traces, crashes = drive_all(prop, items, wd, nproc, chunk_timeout=600 if tier == "thorough" else 100)
+    traces, crashes = drive_all(prop, items, wd, nproc, chunk_timeout=900 if tier == "thorough" else 300)
     t3 = time.time()
     verdicts, cmd = validate(traces, wd, prop)
     t4 = time.time()
